@@ -12,7 +12,7 @@ LEVEL = 'exploration'
 BUDGET = {'quick': 200, 'thorough': 2400}
 CHUNK = 2
 RULE = ('Cases: an ancestor with 1..3 planted insertions/deletions of length 1..10 (< k), >= 4k apart and from the ends, every '
-        'non-trivial carrier set of 3..8 samples (one case in seven: 10..13 samples of which one is a partial assembly that does not reach one of the indels and must be genotyped missing there), k in {11,15,21,31}, threads 1..4 (a share with seeded jitter), samples in random '
+        'non-trivial carrier set of 3..8 samples (one case in seven: 10..13 samples of which one is a partial assembly that does not reach one of the indels and must be genotyped missing there; in a third of those one sample also holds a diverged copy of the surroundings of an indel as a second contig, which puts an ambiguity code on the split k-mer that starts the indel's branch), k in {11,15,21,31}, threads 1..4 (a share with seeded jitter), samples in random '
         'orientation, a quarter of the runs writing over larger output files of an earlier run under the same prefix, a third with dots in the output prefix, -m at its default, 0, 0.1 and 0.5; the generator rejects inputs in which a (k-1)-mer occurs at two different loci (or on both strands, or is self-complementary) over the union of the samples, the ancestor and the single-indel genomes.  '
         'Every record of <out>_indels.vcf is checked by substring tests on the sample sequences the generator wrote: '
         'before+REF+after (or its reverse complement; - = empty) occurs in exactly the samples genotyped 0, before+ALT+after in '
@@ -22,7 +22,7 @@ RULE = ('Cases: an ancestor with 1..3 planted insertions/deletions of length 1..
         'planted indels must be reported (inconclusive below 500 planted), over the whole run and over each of its three input populations: random indels, indels that repeat their flank (homopolymer / tandem-unit length changes), and indels whose junction lies inside a split k-mer with self-complementary arms (a quarter of the cases each for the last two).  Non-trivial: >= 1 planted indel; distinct = inputs.')
 ASSUMPTIONS = ['the sample sequences written by the generator are the ground truth',
                'recall is judged on the aggregate of a run with a minimum sample size of 500 planted indels']
-REQUIRED = {t: ['records_checked', 'planted', 'planted:plain', 'planted:flank', 'planted:palin', 'insertions', 'deletions', 'threads>1', 'multi_indel_inputs', 'headers_checked', 'runs_over_existing_output', 'dotted_output_prefix', 'runs_with_-m_0', 'partial_assemblies'] for t in ('quick', 'thorough')}
+REQUIRED = {t: ['records_checked', 'planted', 'planted:plain', 'planted:flank', 'planted:palin', 'insertions', 'deletions', 'threads>1', 'multi_indel_inputs', 'headers_checked', 'runs_over_existing_output', 'dotted_output_prefix', 'runs_with_-m_0', 'partial_assemblies', 'samples_with_a_diverged_duplicate_near_an_indel'] for t in ('quick', 'thorough')}
 KS = [11, 15, 21, 31]
 
 
@@ -209,6 +209,7 @@ def run_case(desc, ctx):
         res.count('generator_gave_up')
         return res
     anc, ss, indels, carriers, singles = g
+    dupcontig = None
     if desc.get('partial'):
         # ten or more samples, one or two of them partial assemblies that end before (or start after) one of the indels: such a
         # sample carries neither allele there and must be genotyped '.', whatever it was genotyped in another record
@@ -227,10 +228,25 @@ def run_case(desc, ctx):
             if len(cutseq) >= 3 * k:
                 ss[t_] = cutseq
                 res.count('partial_assemblies')
+        if desc['seed'] % 3 == 0:
+            # one sample holds, as a second contig, a copy of the surroundings of an indel with one substitution just before it (a
+            # diverged duplicate): the split k-mer that starts the indel's branch then carries an ambiguity code in that sample
+            u_ = rng.randrange(ns)
+            j_ = rng.randrange(len(indels))
+            a_ = indels[j_][0]
+            anchor = anc[a_ - 2 * k:a_ - k]
+            pos_ = ss[u_].find(anchor)
+            if pos_ >= 0:
+                region = list(ss[u_][max(0, pos_ - k):pos_ + 5 * k])
+                off_ = (pos_ - max(0, pos_ - k)) + 2 * k - (k - 1) // 2 - 1          # (k-1)/2 + 1 bases before the indel position
+                if 0 <= off_ < len(region):
+                    region[off_] = {'A': 'C', 'C': 'G', 'G': 'T', 'T': 'A'}[region[off_]]
+                    dupcontig = (u_, ''.join(region))
+                    res.count('samples_with_a_diverged_duplicate_near_an_indel')
     pool = ['zeta', 'alpha', 'Mu', 'beta9', 'x10', 'x2', 'omega', 'delta', 'B_7', 'kappa', 'a1', 'Z', 'q-3', 'nu.2']
     r3 = random.Random(desc['seed'] ^ 0xabc)
     snames = r3.sample(pool, ns) if desc['seed'] % 2 else ['s%d' % i for i in range(ns)]
-    files = [G.write_fa(ctx.path('%s.fa' % snames[i]), [s if rng.random() < 0.5 else M.rc(s)]) for i, s in enumerate(ss)]
+    files = [G.write_fa(ctx.path('%s.fa' % snames[i]), [s if rng.random() < 0.5 else M.rc(s)] + ([dupcontig[1]] if dupcontig and dupcontig[0] == i else [])) for i, s in enumerate(ss)]
     p = G.ska_build(ctx, ctx.path('o'), files, k, True)
     if p.returncode != 0:
         raise Inconclusive('build failed: ' + p.stderr[-200:])
